@@ -100,7 +100,8 @@ class Ctx:
         self.callbacks = callbacks or {}
         self.vars = {}
         self.responses = []  # (site, mid, response object)
-        self.cmd_results = {}  # mid -> last object returned by the engine's command coroutine
+        self.cmd_results = {}  # mid -> [(seq, object returned by the engine's command coroutine)]
+        self.site_of = {}  # mid -> yield site
         self.msgs = {}  # mid -> Msg (keeps them alive; identity)
         self._mid = 0
         self.msg_ids = {}  # id(msg) -> mid
@@ -174,6 +175,7 @@ class Ctx:
         kw = self.val(node.get("kw", {}))
         msg = Msg(node["cmd"], obj, *args, run=node.get("run"), **kw)
         mid = self.mid_of(msg)
+        self.site_of[mid] = site
         self.log("yield", site=site, mid=mid, cmd=node["cmd"])
         try:
             r = yield msg
@@ -282,14 +284,65 @@ class Ctx:
         return r
 
     def _op_wrap(self, node):
-        fn = getattr(bpp, node["name"])
-        args = self.val(node.get("args", []))
-        kw = self.val(node.get("kw", {}))
+        name = node["name"]
         inner = self._body_gen(node["body"])
-        r = yield from fn(inner, *args, **kw)
+        if name == "plan_mutator_noop":
+            r = yield from bpp.plan_mutator(inner, lambda m: (None, None))
+        elif name == "msg_mutator_identity":
+            r = yield from bpp.msg_mutator(inner, lambda m: m)
+        elif name == "plan_mutator_insert":
+            r = yield from bpp.plan_mutator(inner, self._inserter(node["spec"]))
+        elif name == "finalize_decorator":
+            dec = bpp.finalize_decorator(lambda: self.run_body(node["final"]))
+            r = yield from dec(lambda: inner)()
+        elif name == "contingency_wrapper":
+            kw = {}
+            if node.get("except") is not None:
+                kw["except_plan"] = lambda e: self.run_body(node["except"])
+            if node.get("else") is not None:
+                kw["else_plan"] = lambda: self.run_body(node["else"])
+            if node.get("final") is not None:
+                kw["final_plan"] = lambda: self.run_body(node["final"])
+            r = yield from bpp.contingency_wrapper(inner, auto_raise=node.get("auto_raise", True), **kw)
+        elif name == "finalize_wrapper":
+            fp = node["final"]
+            final = (lambda: self.run_body(fp)) if node.get("final_form") == "fn" else self.run_body(fp)
+            r = yield from bpp.finalize_wrapper(inner, final)
+        else:
+            fn = getattr(bpp, name)
+            args = self.val(node.get("args", []))
+            kw = self.val(node.get("kw", {}))
+            r = yield from fn(inner, *args, **kw)
         if node.get("log"):
             self.log("wrap_ret", name=node["name"], site=node.get("site"), value=summarize(_unret(r)))
         return r
+
+    def _inserter(self, spec):
+        """A plan_mutator processor that inserts head / tail plans at the messages of the target sites."""
+        targets = set(spec["targets"])
+        keep = spec.get("keep", True)
+
+        def proc(m):
+            mid = self.mid_of(m)
+            site = self.site_of.get(mid)
+            self.log("proc", mid=mid, site=site, cmd=m.command)
+            if site not in targets:
+                return None, None
+            head = tail = None
+            if spec.get("head") is not None or not keep:
+
+                def head_gen():
+                    r = yield from self.run_body(spec.get("head") or [])
+                    if keep:
+                        r = yield m
+                    return r
+
+                head = head_gen()
+            if spec.get("tail") is not None:
+                tail = self.run_body(spec["tail"])
+            return head, tail
+
+        return proc
 
     def _body_gen(self, body):
         """A generator over `body` that returns a plain value (wrappers see plain values)."""
